@@ -3,7 +3,7 @@ import os
 import subprocess
 import lib
 from lib import sx, parse_sx
-from gen import versions
+from gen import versions, reqtext
 
 PROOF_FILE = "C04"
 LEVEL = "proof"
@@ -174,6 +174,91 @@ def resolver_universe(rng, sysr):
     return [pk, root[0], root[1][0]]
 
 
+def valid_schema(rng, sysr):
+    """a well-formed schema text (the syntax of schema.New: package / version / import lines by indentation)"""
+    names = [b"alice", b"bob", b"chuck", b"dave", b"@s/erin"][:rng.randrange(2, 6)]
+    if sysr == 1:
+        names = [b"g:" + n.replace(b"@s/", b"") for n in names]
+    vers = [b"1.0.0", b"1.1.0", b"2.0.0", b"2.1.0-beta.1"] if sysr != 2 else [b"1.0", b"1.1", b"2.0", b"2.1b1"]
+    reqs = [[b"*", b"^1.0.0", b"1.x", b">=1.0.0 <2", b"latest", b"2.0.0"], [b"1.0.0", b"[1.0.0,2.0.0)", b"[1.1.0,)", b"2.0.0"],
+            [b">=1.0", b"~=1.1", b"==2.0", b"", b"<2"]][sysr]
+    types = [[b"", b"", b"dev|", b"opt|", b"KnownAs al|", b"Scope peer|"], [b"", b"", b"test|", b"opt|", b"Scope provided|"],
+             [b"", b"", b"", b"Environment \"os_name == 'nt'\"|"]][sysr]
+    out = []
+    for n in names:
+        out.append(n)
+        for v in rng.sample(vers, rng.randrange(1, 4)):
+            out.append(b"\t" + (rng.choice([b"", b"", b"Tags latest|", b"Blocked|"]) if sysr == 0 else b"") + v)
+            if rng.random() < 0.2:
+                out.append(b"\t\tATTR: " + rng.choice([b"Tags next", b"Registries r1", b"Blocked"]))
+            for _ in range(rng.randrange(0, 4)):
+                out.append(b"\t\t" + rng.choice(types) + rng.choice(names) + b"@" + rng.choice(reqs))
+    text = b"\n".join(out) + b"\n"
+    root = names[0]
+    rv = None
+    for i, l in enumerate(out):
+        if l == root and i + 1 < len(out):
+            rv = out[i + 1].strip().split(b"|")[-1]
+            break
+    return text, root, rv or vers[0]
+
+
+def byte_mutate(rng, b, k=4):
+    b = bytearray(b)
+    for _ in range(rng.randrange(1, k + 1)):
+        if not b:
+            break
+        q = rng.random()
+        i = rng.randrange(len(b))
+        if q < 0.4:
+            b[i] = rng.randrange(256)
+        elif q < 0.7:
+            del b[i]
+        else:
+            b.insert(i, rng.randrange(256))
+    return bytes(b)
+
+
+def metadata_text(rng):
+    hdr = [b"Metadata-Version: 2.1\n", b"Name: pkg\n", b"Version: 1.0\n", b"Requires-Dist: a (>=1)\n", b"Requires-Dist: b[e]>=2; extra == 'e'\n",
+           b"Provides-Extra: e\n", b"Requires-Python: >=3\n", b"Summary: x\n", b" continued line\n", b"Home-page: http://x\n"]
+    return b"".join(rng.sample(hdr, rng.randrange(2, len(hdr)))) + b"\n" + rng.choice([b"", b"long description\n"])
+
+
+def wheel_bytes(rng):
+    """a real zip with <name>-<ver>.dist-info/METADATA (and noise members)"""
+    import io, zipfile, warnings
+    warnings.simplefilter("ignore")          # duplicate member names are intended
+    buf = io.BytesIO()
+    with zipfile.ZipFile(buf, "w", compression=rng.choice([zipfile.ZIP_STORED, zipfile.ZIP_DEFLATED])) as z:
+        for _ in range(rng.randrange(0, 3)):
+            z.writestr("pkg/mod%d.py" % rng.randrange(9), b"x = 1\n")
+        d = rng.choice(["pkg-1.0.dist-info", "pkg-1.0.dist-info", "Pkg_X-2.0b1.dist-info", "pkg.dist-info", "a/pkg-1.0.dist-info"])
+        for _ in range(rng.choice([1, 1, 1, 2, 0])):
+            z.writestr(d + "/" + rng.choice(["METADATA", "METADATA", "metadata", "RECORD"]), metadata_text(rng))
+    return buf.getvalue()
+
+
+def sdist_bytes(rng):
+    """(file name, bytes) of a real .tar.gz / .zip sdist with pkg-1.0/PKG-INFO"""
+    import io, tarfile, zipfile
+    meta = metadata_text(rng)
+    top = rng.choice(["pkg-1.0", "pkg-1.0", "Pkg_X-2.0b1", ""])
+    member = (top + "/" if top else "") + rng.choice(["PKG-INFO", "PKG-INFO", "pkg.egg-info/PKG-INFO", "pkg-info"])
+    if rng.random() < 0.6:
+        buf = io.BytesIO()
+        with tarfile.open(fileobj=buf, mode=rng.choice(["w:gz", "w:gz", "w:"])) as t:
+            for nm, data in [(member, meta)] * rng.choice([1, 1, 2]) + [((top or "x") + "/setup.py", b"pass\n")]:
+                ti = tarfile.TarInfo(nm)
+                ti.size = len(data)
+                t.addfile(ti, io.BytesIO(data))
+        return rng.choice([b"pkg-1.0.tar.gz", b"pkg-1.0.tar.gz", b"pkg-1.0.tgz", b"pkg-1.0.tar"]), buf.getvalue()
+    buf = io.BytesIO()
+    with zipfile.ZipFile(buf, "w") as z:
+        z.writestr(member, meta)
+    return b"pkg-1.0.zip", buf.getvalue()
+
+
 def cases(ctx):
     rng = ctx.rng
     n = ctx.scale(700, 60000)
@@ -182,16 +267,21 @@ def cases(ctx):
         for _ in range(n):
             s = versions.gen(rng, sysi) if rng.random() < 0.4 else versions.malformed(rng, sysi)
             out.append(["parse", sysi, s])
+        ctext = lambda: reqtext.requirement(rng, sysi, noise=0.15) if rng.random() < 0.6 else constraint_text(rng, sysi)
         for _ in range(n):
-            out.append(["pconstraint", sysi, constraint_text(rng, sysi)])
+            out.append(["pconstraint", sysi, ctext()])
         for _ in range(n // 2):
             out.append(["psetconstraint", sysi, rng.choice([b"{", b"", b"{}", b"{[1.0.0:2.0.0)}", b"{(1.0.0:\xe2\x88\x9e.\xe2\x88\x9e.\xe2\x88\x9e]}", b"{1.0.0}", b"{[0.0.0-0:1)}"]) +
                         (constraint_text(rng, sysi) if rng.random() < 0.5 else b"")])
         for _ in range(n // 2):
             out.append(["syscompare", sysi, versions.malformed(rng, sysi), versions.gen(rng, sysi)])
             out.append(["difference", sysi, versions.gen(rng, sysi), versions.malformed(rng, sysi)])
-            out.append(["match", sysi, constraint_text(rng, sysi), versions.gen(rng, sysi) if rng.random() < 0.7 else versions.malformed(rng, sysi)])
-            out.append(["setops", sysi, constraint_text(rng, sysi), constraint_text(rng, sysi)])
+            out.append(["match", sysi, ctext(), versions.gen(rng, sysi) if rng.random() < 0.7 else versions.malformed(rng, sysi)])
+            if rng.random() < 0.5 and sysi in (0, 1, 2, 4):
+                pa, pb, _ = reqtext.shared_endpoint_pair(rng, sysi)
+                out.append(["setops", sysi, pa, pb])
+            else:
+                out.append(["setops", sysi, ctext(), ctext()])
     for _ in range(n * 2):
         # mixed systems: a constraint of one system asked about a version parsed in another
         sc, sv = rng.randrange(9), rng.randrange(9)
@@ -222,6 +312,17 @@ def cases(ctx):
         wn = [b"pkg", b"-", b"1.0", b"py3", b"none", b"any", b".whl", b"_", b"1", b"cp39", b".tar.gz", b".zip", b".", b"\xff"]
         out.append(["wheelname", b"".join(rng.choice(wn) for _ in range(rng.randrange(0, 10)))])
         out.append(["sdistversion", rng.choice([b"pkg", b"a-b", b""]), b"".join(rng.choice(wn) for _ in range(rng.randrange(0, 8)))])
+        # valid file names and REAL archives (half of them then byte-mutated): the code behind the first check
+        wnm = b"-".join([rng.choice([b"pkg", b"Pkg_X", b"a.b"]), rng.choice([b"1.0", b"2.0b1", b"1!1.0.post1"])] +
+                        ([rng.choice([b"1", b"2build"])] if rng.random() < 0.3 else []) +
+                        [rng.choice([b"py3", b"cp39", b"py2.py3"]), rng.choice([b"none", b"cp39", b"abi3"]),
+                         rng.choice([b"any", b"manylinux1_x86_64", b"win_amd64.macosx_10_9_x86_64"])]) + b".whl"
+        out.append(["wheelname", wnm if rng.random() < 0.6 else byte_mutate(rng, wnm, 2)])
+        out.append(["sdistversion", rng.choice([b"pkg", b"pkg-x", b"a.b"]), rng.choice([b"pkg-1.0.tar.gz", b"pkg_x-2.0b1.zip", b"pkg-x-1.0.tar.gz", b"a.b-1.tgz", b"pkg-1.0"])])
+        wb = wheel_bytes(rng)
+        out.append(["wheelmetadata", wb if rng.random() < 0.5 else byte_mutate(rng, wb)])
+        fn, sb = sdist_bytes(rng)
+        out.append(["sdistmetadata", fn, sb if rng.random() < 0.5 else byte_mutate(rng, sb)])
         raw = bytes(rng.randrange(256) for _ in range(rng.randrange(0, 64)))
         out.append(["wheelmetadata", rng.choice([b"PK\x03\x04", b"PK\x05\x06" + b"\0" * 18, b""]) + raw])
         out.append(["sdistmetadata", rng.choice([b"x.tar.gz", b"x.zip", b"x.tgz", b"x", b""]), rng.choice([b"\x1f\x8b\x08", b"PK\x03\x04", b""]) + raw])
@@ -239,6 +340,14 @@ def cases(ctx):
         out.append(["parseresolve", rng.randrange(3), schema_text(rng)])
         out.append(["depparse", schema_text(rng)])
         out.append(["verparse", schema_text(rng)])
+    for _ in range(ctx.scale(400, 15000)):
+        # a universe that came through the schema text (the path the property names), valid or mutated
+        sysr = rng.randrange(3)
+        text, root, rv = valid_schema(rng, sysr)
+        if rng.random() < 0.3:
+            text = byte_mutate(rng, text)
+        out.append(["resolveschema", sysr, text, root, rv])
+        out.append(["schemanew", sysr, text])
     for _ in range(ctx.scale(500, 20000)):
         sysr = rng.randrange(3)
         u = resolver_universe(rng, sysr)
